@@ -46,6 +46,8 @@ func (e edit) String() string {
 		return fmt.Sprintf("inject %d bytes of ff between the header and the body of record %d", e.arg, e.i)
 	case "dropheader":
 		return fmt.Sprintf("drop the header of record %d (its body follows the previous record)", e.i)
+	case "timeout":
+		return fmt.Sprintf("delay the rest of the stream at byte %d until the reader's deadline has expired once (the read times out there, the reader tries again)", e.arg)
 	}
 	return e.kind
 }
@@ -55,6 +57,12 @@ func (e edit) apply(recs [][]byte, other [][]byte) [][]byte {
 	cp := func(b []byte) []byte { return append([]byte{}, b...) }
 	out := make([][]byte, 0, len(recs)+1)
 	switch e.kind {
+	case "timeout":
+		// the bytes are untouched; the delay is applied by the reader's
+		// transport (readAll)
+		for _, rc := range recs {
+			out = append(out, cp(rc))
+		}
 	case "flip":
 		for k, rc := range recs {
 			c := cp(rc)
@@ -173,7 +181,31 @@ func recordsOf(w *mailbox.Machine, msgs [][]byte) ([][]byte, error) {
 // readAll reads messages through the given layer until three consecutive
 // errors; it returns the messages, the index of the first error (-1 = none)
 // and a note when something valid was returned after an error.
-func readAll(layer string, m *mailbox.Machine, stream []byte, cfg hsCase) (msgs [][]byte, firstErr int, after string, panicked string) {
+// timeoutSide is a transport whose Read times out once when the stream has
+// been consumed up to byte `at` exactly (what a read deadline does when the
+// relay holds the following bytes back), and then carries on.
+type timeoutSide struct {
+	*side
+	pos, at int
+	fired   bool
+}
+
+func (t *timeoutSide) Read(b []byte) (int, error) {
+	if !t.fired && t.at >= 0 {
+		if t.pos == t.at {
+			t.fired = true
+			return 0, timeoutErr{}
+		}
+		if t.pos < t.at && t.pos+len(b) > t.at {
+			b = b[:t.at-t.pos]
+		}
+	}
+	n, err := t.side.Read(b)
+	t.pos += n
+	return n, err
+}
+
+func readAll(layer string, m *mailbox.Machine, stream []byte, cfg hsCase, timeoutAt int) (msgs [][]byte, firstErr int, after string, panicked string) {
 	firstErr = -1
 	defer func() {
 		if r := recover(); r != nil {
@@ -183,7 +215,7 @@ func readAll(layer string, m *mailbox.Machine, stream []byte, cfg hsCase) (msgs 
 	src := newPipe()
 	_, _ = src.Write(stream)
 	src.Close()
-	s := &side{in: src, out: newPipe(), name: "reader"}
+	s := &timeoutSide{side: &side{in: src, out: newPipe(), name: "reader"}, at: timeoutAt}
 	var read func() ([]byte, error)
 	switch layer {
 	case "Machine":
@@ -304,9 +336,13 @@ func TestC02(t *testing.T) {
 			for _, s := range sizes {
 				total += 18 + s + 16
 			}
+			var timeouts []edit
 			if total < 400 {
 				for off := 0; off < total; off++ {
 					nonflip = append(nonflip, edit{kind: "trunc", arg: off})
+					// a read deadline that expires at this byte, the
+					// reader retrying afterwards
+					timeouts = append(timeouts, edit{kind: "timeout", arg: off})
 				}
 			}
 			for di, dir := range []string{"a2b", "b2a"} {
@@ -315,6 +351,11 @@ func TestC02(t *testing.T) {
 				if len(sizes) == 4 && sizes[0] == 2 {
 					// header-sized bodies: every reading layer
 					layers = all
+				}
+				for _, layer := range all {
+					for _, e := range timeouts {
+						jobs = append(jobs, job{cfg, sizes, dir, layer, []edit{e}})
+					}
 				}
 				for _, layer := range layers {
 					jobs = append(jobs, job{cfg, sizes, dir, layer, nil})
@@ -384,7 +425,11 @@ func TestC02(t *testing.T) {
 			return
 		}
 		delivered := recs
+		timeoutAt := -1
 		for _, e := range j.edits {
+			if e.kind == "timeout" {
+				timeoutAt = e.arg
+			}
 			if e.kind == "swap" && e.i+1 >= len(delivered) || e.kind == "flip" && (e.i >= len(delivered) || e.arg/8 >= len(delivered[e.i])) ||
 				(e.kind == "drop" || e.kind == "dup" || e.kind == "replay") && (e.i >= len(delivered) || e.j >= len(delivered)) ||
 				(e.kind == "injectmid" || e.kind == "dropheader") && (e.i >= len(delivered) || len(delivered[e.i]) < 18) ||
@@ -400,7 +445,7 @@ func TestC02(t *testing.T) {
 		stream := bytes.Join(delivered, nil)
 		atomic.AddInt64(&evals, 1)
 
-		got, firstErr, after, panicked := readAll(j.layer, rd, stream, j.cfg)
+		got, firstErr, after, panicked := readAll(j.layer, rd, stream, j.cfg, timeoutAt)
 		label := fmt.Sprintf("%v, %s via %s, records of %v plaintext bytes, edits %v", j.cfg, j.dir, j.layer, j.sizes, j.edits)
 		ctx := map[string]any{"config": j.cfg.String(), "direction": j.dir, "layer": j.layer, "record_sizes": j.sizes, "edits": fmt.Sprint(j.edits)}
 		ek := "none"
@@ -450,6 +495,18 @@ func TestC02(t *testing.T) {
 				r.Violation("not-a-prefix/"+ek, fmt.Sprintf("%s: message #%d returned to the reader is not what the peer wrote at that position (%d bytes)", label, i, len(g)), ctx)
 				return
 			}
+		}
+		if timeoutAt >= 0 {
+			// A delay changes no byte: the read may fail for good (a
+			// record cut by a deadline cannot be resumed) or go on, and
+			// only the prefix clauses above apply.
+			if len(got) == len(msgs) {
+				note("timeout/all-read")
+			} else {
+				note("timeout/stream-fails-visibly")
+			}
+			atomic.AddInt64(&nontrivial, 1)
+			return
 		}
 		// 2. index of the first record whose wire bytes differ
 		fd := firstDiff(stream, orig)
